@@ -2,10 +2,13 @@
 (***************************************************************************)
 (* Behaviour generator for the C20 conformance driver (harness/c20).       *)
 (* A history is the sequence of operations on ONE Fetcher:                 *)
-(*   [op |-> "fetch", alpn, recs, cut]  a FetchData call together with the *)
-(*        script the peer follows if the call dials ("dflt": the model did *)
-(*        not dial; the driver keeps a well-formed script ready in case    *)
-(*        the real code does)                                              *)
+(*   [op |-> "fetch", alpn, recs, cut, stall, stallw]  a FetchData call     *)
+(*        together with the script the peer follows if the call dials      *)
+(*        ("dflt": the model did not dial; the driver keeps a well-formed  *)
+(*        script ready in case the real code does); stallw # "none": after *)
+(*        `stall` complete records (and, "hdr" / "body", a part of the     *)
+(*        next one) the peer stalls until the deadline of the call's       *)
+(*        context has passed, then sends the rest                          *)
 (*   [op |-> "store"]                   a StoreCookie call                 *)
 (*   GSpec  exhaustive: every history within the bounds (hist is part of   *)
 (*          the state, so TLC visits every script exactly once)            *)
@@ -25,8 +28,8 @@ VARIABLES hist,   \* the history so far
 
 gvars == <<vars, hist, pre>>
 
-Op(a) == [op |-> "fetch", alpn |-> a, recs |-> << >>, cut |-> "none"]
-StoreOp == [op |-> "store", alpn |-> "-", recs |-> << >>, cut |-> "none"]
+Op(a) == [op |-> "fetch", alpn |-> a, recs |-> << >>, cut |-> "none", stall |-> 0, stallw |-> "none"]
+StoreOp == [op |-> "store", alpn |-> "-", recs |-> << >>, cut |-> "none", stall |-> 0, stallw |-> "none"]
 Last == Len(hist)
 Snap == [data |-> data, sess |-> sess]
 
@@ -41,13 +44,23 @@ GCut(r, w) == /\ ReadCut(r, w)
               /\ hist' = [hist EXCEPT ![Last].recs = Append(@, r), ![Last].cut = w]
               /\ UNCHANGED pre
 GStore   == StoreCookie /\ hist' = Append(hist, StoreOp) /\ UNCHANGED pre
+\* the deadline passes while the peer is silent; what the peer sends afterwards on
+\* the connection of a call that has returned belongs to the same script
+GStall(w, r) == /\ StallPastDeadline(w, r)
+                /\ hist' = [hist EXCEPT ![Last].stall = Len(hist[Last].recs), ![Last].stallw = w]
+                /\ UNCHANGED pre
+GLate(r) == LateRecord(r) /\ hist' = [hist EXCEPT ![Last].recs = Append(@, r)] /\ UNCHANGED pre
+GLateClose == /\ LateClose
+              /\ hist' = IF pend.w = "no" THEN hist
+                         ELSE [hist EXCEPT ![Last].recs = Append(@, pend.r), ![Last].cut = pend.w]
+              /\ UNCHANGED pre
 
 \* What the peer sends after the record that made this client give up (an error
 \* record, an unrecognised critical record) is of no consequence for the
 \* specification's client, but it is part of the peer's behaviour: an
 \* implementation that wrongly reads on will see it.
 TailOpen ==
-  /\ Tails /\ conn = "failed" /\ hist # << >>
+  /\ Tails /\ conn = "failed" /\ ~late.open /\ hist # << >>
   /\ LET o == hist[Last] IN
        /\ o.op = "fetch" /\ o.cut = "none" /\ o.recs # << >>
        /\ \E i \in DOMAIN o.recs : Stops(o.recs[i])
@@ -64,6 +77,9 @@ GNext ==
   \/ \E r \in CutRecs, w \in {"hdr", "body"} : GCut(r, w)
   \/ GStore
   \/ \E r \in Alphabet : GTail(r)
+  \/ \E x \in StallPoints : GStall(x[1], x[2])
+  \/ \E r \in Alphabet : GLate(r)
+  \/ GLateClose
 
 GSpec == GInit /\ [][GNext]_gvars
 
@@ -76,7 +92,7 @@ LikelyEnd == <<"ck", "ck", "un", "sA", "pB", "eom", "eom", "eom", "eom", "eom">>
 LikelyTail == <<"a15", "ck", "ck", "np", "eom", "eom">>
 
 SNext ==
-  \/ /\ Idle
+  \/ /\ Quiet
      /\ \E k \in {Pick(1 .. 12)} :
           IF TailOpen /\ k <= 9 THEN GTail(PickSeq(LikelyTail))
           ELSE IF data.pool # << >>
@@ -84,15 +100,30 @@ SNext ==
           ELSE IF k = 1 /\ ENABLED StoreCookie THEN GStore
           ELSE \E a \in {IF k <= 9 THEN "ntske/1" ELSE Pick(Alpns)} : GDial(a)
   \/ GLocal
-  \/ /\ conn = "reading"
-     /\ \E k \in {Pick(1 .. 20)} :
-          IF k = 1 THEN GClose
+  \/ /\ conn = "reading" /\ pend.w = "no"
+     /\ \E k \in {Pick(1 .. 22)} :
+          IF k >= 21 /\ ctx = "live" /\ nstalls < MaxStalls
+          THEN \E x \in {Pick(StallPoints)} :
+                 IF x[1] = "bnd" \/ (sv.n < MaxRecs /\ x[2] \in Alphabet /\ (x[1] = "body" => HasBody(x[2])))
+                 THEN GStall(x[1], x[2]) ELSE GStall("bnd", "")
+          ELSE IF k = 1 THEN GClose
           ELSE IF k = 2
           THEN \E r \in {Pick(CutRecs)}, w \in {Pick({"hdr", "body"})} :
                  IF sv.n < MaxRecs THEN GCut(r, IF HasBody(r) THEN w ELSE "hdr") ELSE GClose
           ELSE \E r \in {IF k <= 4 THEN Pick(Alphabet)
                           ELSE IF sv.a15 /\ sv.nck >= 1 THEN PickSeq(LikelyEnd) ELSE PickSeq(LikelyMid)} :
                  IF sv.n < MaxRecs THEN GRead(r) ELSE GClose
+  \* the peer completes the record it stalled in (seldom: closes inside it)
+  \/ /\ conn = "reading" /\ pend.w # "no"
+     /\ \E k \in {Pick(1 .. 8)} :
+          IF k = 1 THEN GCut(pend.r, IF pend.w = "body" \/ ~HasBody(pend.r) THEN pend.w ELSE Pick({"hdr", "body"}))
+          ELSE GRead(pend.r)
+  \* the call has returned at its deadline; the peer goes on
+  \/ /\ conn = "failed" /\ late.open
+     /\ \E k \in {Pick(1 .. 6)} :
+          IF k = 1 \/ sv.eom \/ sv.n >= MaxRecs THEN GLateClose
+          ELSE GLate(IF pend.w # "no" THEN pend.r
+                     ELSE IF sv.a15 /\ sv.nck >= 1 THEN PickSeq(LikelyEnd) ELSE PickSeq(LikelyMid))
 
 SSpec == GInit /\ [][SNext]_gvars
 
@@ -109,11 +140,14 @@ Decorated ==
 
 \* ------------------------------------------------------------- emitters
 \* no further FetchData call is possible within the bounds
-Done == /\ Idle /\ hist # << >>
+Done == /\ Quiet /\ hist # << >>
         /\ ncalls = MaxCalls \/ (data.pool = << >> /\ ndials = MaxDials)
 Emit == Done => PrintT(<<"CASE", ToJson([h |-> hist])>>)
 \* (TLC evaluates invariants also on the states a CONSTRAINT discards)
 EmitDecorated == (Done /\ Decorated) => PrintT(<<"CASE", ToJson([h |-> hist])>>)
+
+\* the stall family: single exchanges in which the peer stalls past the deadline
+EmitStalled == (Done /\ hist[Last].stallw # "none") => PrintT(<<"CASE", ToJson([h |-> hist])>>)
 
 \* the function used by strict trace validation computes what the actions do
 RunAgrees ==
